@@ -28,6 +28,9 @@ C = "ebpfcat.ebpfcat."
 
 
 def run(chk, repo):
+    chk.doc("R30.4", "recorded counter positions are per packet")
+    per_instance_rule(chk, repo, "R30.4", ["ebpfcat.ebpfcat.SterilePacket"], "one group checks and "
+                      "clears working counters at another group's positions")
     chk.doc("R30.1", "order within a cycle")
     chk.doc("R30.2", "counter positions")
     chk.doc("R30.3", "which frame is (re)sent")
@@ -112,10 +115,10 @@ def counters(chk, repo):
     ok = bool(find("self.append(cmd, *args, **kwargs)", aw))
     chk.ob("R30.2", sp.qualname + ".append_writer", "writers go through "
            "append as well", ok, aw, "self.append(...)")
-    si = sp.methods["__init__"]
-    ok = bool(find("self.counters = {}", si, mode="stmt"))
+    si = sp.methods.get("__init__")
+    ok = si is not None and bool(find("self.counters = {}", si, mode="stmt"))
     chk.ob("R30.2", sp.qualname + ".__init__", "counters start empty per "
-           "packet", ok, si, "a dict per instance")
+           "packet", ok, si or sp.node, "a dict per instance")
 
 
 def sends(chk, repo):
